@@ -3,12 +3,24 @@
   against the hand-written model `DDS.PStore`: page arithmetic, `page`, constructor, `IsEmpty`, `TotalCount`,
   `Clear`, `Copy`.
 
-  Proved (for ALL stores, capacities, integers; no store invariant is assumed anywhere):
-  * bit arithmetic of `GoSem.andInt` for all integers, negative included:
+  Proved for ALL stores `s`, capacities `cap`, integers (no store invariant is assumed anywhere):
+  * bit arithmetic of `GoSem.andInt`, negative arguments included:
       `andInt_mask    : andInt i (2^k - 1) = i % 2^k`,
       `andInt_neg_pow : andInt x (-(2^k)) = x / 2^k * 2^k`, `andInt_neg8` its `k = 3` instance;
-  * `gen_pageIndex`, `gen_lineIndex`, `gen_index`, `gen_newPagesLen`: the generated page arithmetic on
-    `toGen s cap` is the model's.
+  * `gen_pageIndex`, `gen_lineIndex`, `gen_index`(`_nat`), `gen_newPagesLen`, `gen_pageLen`: the generated page
+    arithmetic on `toGen s cap` is the model's; `lineIndex_lt`;
+  * `page_spec : PageSpec` — the interface statement of GenPagDefs is TRUE AS STATED: with `pageFuel s p ≤ fuel`
+    the generated `page` equals `toRes … (s.page p e)`, panics exactly when the model answers `none`, never runs
+    out of fuel.  (The only loop clears `addedLen ≤ minPageIndex - p + 8` slots of a left extension, so it needs
+    `addedLen + 1 ≤ (minPageIndex - p + 9).toNat + 1 = pageFuel s p`; every other branch needs no fuel at all.)
+    Building blocks: `page_unfold` (the four copies of the final read-and-materialise step folded into `fetch`),
+    `fetch_spec` (`fetch` = the model's last step `mfetch`), `page_loop1`, `page_spec_in`, `page_spec_out`.
+  * `new_spec : NewBufferedPaginatedStore = toGen PStore.new 4`;
+    `isEmpty_spec`, `totalCount_spec` (`= .ok s.isEmpty`, `= .ok s.totalCount`; the `fuel` argument is unused);
+    `clear_spec : Clear fuel (toGen s cap) = .ok (toGen s.clear cap)`;
+    `copy_spec : Copy fuel (toGen s cap) = .ok (toGen s s.buffer.length)` (the copy's capacity is its length;
+    `Copy` materialises the non-empty pages only, an empty page stays nil, so the pages are equal).
+  No disagreement between generated code and model was found in these functions.
 -/
 import DDS.Proofs.GenPagDefs
 
@@ -618,5 +630,103 @@ theorem totalCount_spec (s : PStore) (cap : Int) (fuel : Nat) :
   · funext acc pg; rw [Array.foldl_toList]
 
 end observers
+
+section mutators
+open Gen.Paginated
+
+/-! ### `Clear` -/
+
+theorem clear_loop1 (rest : List (List Rat)) :
+    ∀ (pre : List (List Rat)) (g : GP) (i : Int), g.pages = pre ++ rest → (pre.length : Int) = i →
+      BufferedPaginatedStore.Clear.loop1 rest i g
+        = .done { g with pages := pre ++ rest.map (fun _ => ([] : List Rat)) } := by
+  induction rest with
+  | nil =>
+    intro pre g i hp hi
+    unfold BufferedPaginatedStore.Clear.loop1
+    simp only [List.map_nil]; rw [← hp]
+  | cons x r ih =>
+    intro pre g i hp hi
+    unfold BufferedPaginatedStore.Clear.loop1
+    have hidx : GoSem.idx g.pages i = some x := by
+      unfold GoSem.idx; rw [if_neg (by omega), hp, ← hi]; simp
+    have hsl : GoSem.sliceTo x 0 = some [] := by
+      unfold GoSem.sliceTo; rw [if_neg (by omega)]; simp
+    have hset : GoSem.set g.pages i ([] : List Rat) = some ((pre ++ [[]]) ++ r) := by
+      unfold GoSem.set
+      rw [if_neg (by rw [hp]; simp; omega), hp, ← hi]
+      simp
+    rw [hidx, optL_some, hsl, optL_some, hset, optL_some]
+    rw [ih (pre ++ [[]]) _ (i + 1) rfl (by simp; omega)]
+    simp
+
+theorem clear_spec (s : PStore) (cap : Int) (fuel : Nat) :
+    BufferedPaginatedStore.Clear fuel (toGen s cap) = .ok (toGen s.clear cap) := by
+  unfold BufferedPaginatedStore.Clear
+  have hsl : GoSem.sliceTo (toGen s cap).buffer 0 = some [] := by
+    unfold GoSem.sliceTo; rw [if_neg (by omega)]; simp
+  rw [hsl, optR_some]
+  dsimp only
+  rw [clear_loop1 (toGen s cap).pages [] _ 0 ?_ rfl]
+  · simp only [Loop.elim_done, List.nil_append]
+    congr 1
+    unfold PStore.clear toGen pagesL
+    simp only [maxInt, Array.toList_map, List.map_map]
+    congr 1
+  · rfl
+
+/-! ### `Copy` -/
+
+theorem copySlice_replicate {α : Type} (l : List α) (z : α) : GoSem.copySlice (List.replicate l.length z) l = l := by
+  unfold GoSem.copySlice
+  simp
+
+theorem copy_loop1 (rest : List (List Rat)) :
+    ∀ (pre : List (List Rat)) (i : Int), (pre.length : Int) = i →
+      BufferedPaginatedStore.Copy.loop1 rest i (pre ++ List.replicate rest.length ([] : List Rat))
+        = .done (pre ++ rest) := by
+  induction rest with
+  | nil => intro pre i hi; rfl
+  | cons x r ih =>
+    intro pre i hi
+    unfold BufferedPaginatedStore.Copy.loop1
+    by_cases hx : (0 : Int) < GoSem.len x
+    · rw [if_pos (by simpa using hx)]
+      have hmk : GoSem.mkSlice (GoSem.len x) (0 : Rat) = some (List.replicate x.length 0) := by
+        unfold GoSem.mkSlice GoSem.len; rw [if_neg (by omega)]; simp
+      have hset : GoSem.set (pre ++ List.replicate (x :: r).length ([] : List Rat)) i x
+          = some ((pre ++ [x]) ++ List.replicate r.length ([] : List Rat)) := by
+        unfold GoSem.set
+        rw [if_neg (by simp; omega), ← hi]
+        simp [List.replicate_succ]
+      rw [hmk, optL_some]
+      dsimp only
+      rw [copySlice_replicate, hset, optL_some, ih (pre ++ [x]) (i + 1) (by simp; omega)]
+      simp
+    · rw [if_neg (by simpa using hx)]
+      have hnil : x = [] := by
+        unfold GoSem.len at hx
+        exact List.eq_nil_of_length_eq_zero (by omega)
+      subst hnil
+      have : pre ++ List.replicate ([] :: r).length ([] : List Rat) = (pre ++ [[]]) ++ List.replicate r.length [] := by
+        simp [List.replicate_succ]
+      rw [this, ih (pre ++ [[]]) (i + 1) (by simp; omega)]
+      simp
+
+theorem copy_spec (s : PStore) (cap : Int) (fuel : Nat) :
+    BufferedPaginatedStore.Copy fuel (toGen s cap) = .ok (toGen s (s.buffer.length : Int)) := by
+  unfold BufferedPaginatedStore.Copy
+  have hmk : GoSem.mkSlice (GoSem.len (toGen s cap).buffer) (0 : Int) = some (List.replicate s.buffer.length 0) := by
+    unfold GoSem.mkSlice GoSem.len; rw [if_neg (by omega)]; simp
+  have hmk2 : GoSem.mkSlice (GoSem.len (toGen s cap).pages) ([] : List Rat)
+      = some ([] ++ List.replicate (pagesL s).length []) := by
+    unfold GoSem.mkSlice GoSem.len; rw [if_neg (by omega)]; simp
+  rw [hmk, optR_some]
+  dsimp only
+  rw [hmk2, optR_some, toGen_pages, copy_loop1 _ [] 0 rfl, toGen_buffer, copySlice_replicate]
+  simp only [Loop.elim_done, List.nil_append, GoSem.len]
+  rfl
+
+end mutators
 
 end DDS.GenPag
